@@ -1,0 +1,8 @@
+//go:build verif
+
+package reflect
+
+import "github.com/cloudwego/frugal/verifhook"
+
+// vh forwards an instrumentation event; see package verifhook.
+func vh(ev int, a, b, c uintptr) { verifhook.Emit(ev, a, b, c) }
